@@ -75,9 +75,9 @@ PROPS = {
     'C09': dict(obligations=lambda: P('SqProps.C09') + SHAPE_OPS,
                 slices=['probe'], monitors=['c09'],
                 pending=['big-step statements for the three-part slice node and for callbacks driven by map / filter / reduce / sorted (proved with the frame lemma for every single-operand frame, strict binary operators, and / or, if-else, call arguments, dict literals and statement lists of any size)']),
-    'C10': dict(obligations=lambda: P('SqProps.C10'),
+    'C10': dict(obligations=lambda: P('SqProps.C10') + P('SqProps.C10Run'),
                 slices=['scope', 'session_scope'], monitors=['c10'],
-                pending=['lambda-scope writes never reach an outer binding of the same name: heap-level frame lemma for writeTop over whole runs (one-transition lemma writes_go_to_top proved; scope_balanced proved over all runs)']),
+                pending=['programs WITH mutators: a mutator reaches a scope dictionary only through a reference to it, and no value ever refers to one (heap-level separation invariant, world-relative) — for mutator-free programs assignments_in_calls_leave_covered_scopes is proved over whole runs; scope_balanced over all runs']),
     'C11': dict(obligations=lambda: P('SqProps.C11') + SHAPE_RESETS,
                 slices=['session'], monitors=['c11'],
                 pending=['histories that contain earlier EVALS: independent up to the D9 finding (a stored lambda charges its creator VM); proved for histories of parse / list_names calls of any outcome, and for cached parsers via C17.cache_transparent']),
